@@ -176,6 +176,12 @@ theorem C15_undefined_not_nopped {W R P} (env : Env) (pats : Option (List P)) (m
       pats m ok exec w cmd = (w, .error n) := by
   simp [Fs.Split.executePhased, h]
 
+/-- **`cursor.describe` is a use-site like any other**: it executes `DESCRIBE <command>`, and inlining that text
+    is inlining the command — the same substitutions, the same undefined-variable error. -/
+theorem C15_describe_same_references (env : Env) (cmd : List Char) :
+    Impl.inline env ("DESCRIBE ".toList ++ cmd) = (Impl.inline env cmd).app "DESCRIBE ".toList :=
+  inlineGo_prefix env "DESCRIBE ".toList cmd (by decide) (by decide) false
+
 /-! ## regression witnesses: the pinned code violated the property (repaired in fix-B 91ee0e3) -/
 
 /-- `$var10` was rewritten through `var1` -/
